@@ -14,7 +14,7 @@ parts, names as plain ASCII tokens):
   lit    := "null" | "i" int | "f" | "s" | "b" | "e" name | "[" n lit*n | "{" n (name lit)*n
   dir    := name nLocations nA ival*nA repeatable
 
-Output: `<ok|crash CLS>;<pinned: ok|crash CLS>;<spec 0|1>;<outOfFuel 0|1>;<kind:subject>*`
+Output: `<ok|crash CLS>;<pinned: ok|crash CLS>;<spec 0|1>;<outOfFuel 0|1>;<uninhabited input objects, comma separated>;<kind:subject>*`
 -/
 open Gql Gql.Types Driver
 
@@ -172,7 +172,8 @@ def step (line : String) : String :=
     let (p, _) := showOut (Pinned.validateSchema s)
     let spec := if Spec.TypeSystemValid s then "1" else "0"
     let oof := if validateSchemaOutOfFuel s then "1" else "0"
-    s!"{a};{p};{spec};{oof};{errs}"
+    let unin := ",".intercalate ((Spec.uninhabited s).map showStr)
+    s!"{a};{p};{spec};{oof};{unin};{errs}"
   | _ => "bad-op"
 
 def main : IO Unit := run step
